@@ -197,12 +197,10 @@ pub fn parse_with_callbacks(p: &cooklang::CooklangParser, s: &str) -> RecipeResu
     use cooklang::analysis::{CheckOptions, CheckResult};
     let mut n = 0usize;
     let opts = cooklang::ParseOptions {
-        recipe_ref_check: Some(Box::new(|name: &str| {
-            if name.len() % 2 == 0 {
-                CheckResult::Error(vec!["unknown recipe".into(), "second hint".into()])
-            } else {
-                CheckResult::Warning(vec!["maybe".into()])
-            }
+        recipe_ref_check: Some(Box::new(|name: &str| match name.len() % 3 {
+            0 => CheckResult::Error(vec!["unknown recipe".into(), "second hint".into()]),
+            1 => CheckResult::Warning(vec!["maybe".into()]),
+            _ => CheckResult::Ok,
         })),
         metadata_validator: Some(Box::new(move |_k: &serde_yaml::Value, _v: &serde_yaml::Value, o: &mut CheckOptions| {
             n += 1;
